@@ -66,35 +66,43 @@ Theorem C16_frames_same : forall C l,
 Proof. exact frames_same. Qed.
 Print Assumptions C16_frames_same.
 
-(* FULL STATEMENT (refuted below, recorded finding C16-recursion-folding-format):
-     forall C fs e, ei_formatted C (map cp_of_live fs) (ei_type (ex_module e) (ex_qualname e)) (ex_str e)
-                    = std_text (std_tb C fs e).
-   Proved outside the guard [long_repeat]: *)
+(* FULL STATEMENT (refuted below; recorded findings C16-recursion-folding-format,
+   C16-display-suggestions, C16-str-failure):
+     forall C fs e, ei_text C fs e = std_text (std_tb C fs e).
+   Proved outside the guards: no run of more than 3 identical entries, and the ordinary
+   kind of exception (str(value) works, the interpreter shows exactly Type: str(value)): *)
 Theorem C16_format_partial : forall C fs e,
-  long_repeat (map (std_frame C) fs) = false ->
-  ei_formatted C (map cp_of_live fs) (ei_type (ex_module e) (ex_qualname e)) (ex_str e)
-  = std_text (std_tb C fs e).
+  long_repeat (map (std_frame C) fs) = false -> plain_exc e = true ->
+  ei_text C fs e = std_text (std_tb C fs e).
 Proof. exact format_partial. Qed.
 Print Assumptions C16_format_partial.
 
-Theorem C16_format_refuted :
-  exists fs e, ei_formatted py_cc (map cp_of_live fs) (ei_type (ex_module e) (ex_qualname e)) (ex_str e)
-               <> std_text (std_tb py_cc fs e).
-Proof. exact format_refuted. Qed.
-Print Assumptions C16_format_refuted.
+Theorem C16_format_refuted_recursion :
+  exists fs e, plain_exc e = true /\ ei_text py_cc fs e <> std_text (std_tb py_cc fs e).
+Proof. exact format_refuted_recursion. Qed.
+Print Assumptions C16_format_refuted_recursion.
 
-(* whatever the call chain: ExceptionInfo's text is the unfolded standard rendering ... *)
-Theorem C16_format_plain : forall C fs e,
-  ei_formatted C (map cp_of_live fs) (ei_type (ex_module e) (ex_qualname e)) (ex_str e)
-  = plain_text (std_tb C fs e).
-Proof. exact ei_formatted_plain. Qed.
+Theorem C16_format_refuted_suggestion :
+  exists fs e, long_repeat (map (std_frame py_cc) fs) = false /\ hint_of e <> None /\
+               ei_text py_cc fs e <> std_text (std_tb py_cc fs e).
+Proof. exact format_refuted_hint. Qed.
+Print Assumptions C16_format_refuted_suggestion.
+
+Theorem C16_format_refuted_str_failure :
+  exists fs e, long_repeat (map (std_frame py_cc) fs) = false /\ hint_of e <> None /\
+               ei_text py_cc fs e <> std_text (std_tb py_cc fs e).
+Proof. exact format_refuted_str. Qed.
+Print Assumptions C16_format_refuted_str_failure.
+
+(* whatever the call chain and the exception: ExceptionInfo's text is the unfolded standard
+   rendering of the interpreter's entries and type with boltons' own message text ... *)
+Theorem C16_format_plain : forall C fs e, ei_text C fs e = plain_text (ei_tb C fs e).
+Proof. exact ei_text_plain. Qed.
 Print Assumptions C16_format_plain.
 
 (* ... and ParsedException reads it back *)
 Theorem C16_format_reparse : forall C, cc_ok C -> forall fs e,
-  wf C (std_tb C fs e) = true ->
-  from_string C (ei_formatted C (map cp_of_live fs) (ei_type (ex_module e) (ex_qualname e)) (ex_str e))
-  = Ok (std_tb C fs e).
+  wf C (ei_tb C fs e) = true -> from_string C (ei_text C fs e) = Ok (ei_tb C fs e).
 Proof. exact format_reparse. Qed.
 Print Assumptions C16_format_reparse.
 
@@ -111,6 +119,7 @@ Proof. vm_compute. repeat split; reflexivity. Qed.
 
 Example live_inhabited :
   wf py_cc (std_tb py_cc live_fs live_e) = true /\ long_repeat (map (std_frame py_cc) live_fs) = false /\
+  plain_exc live_e = true /\ ei_tb py_cc live_fs live_e = std_tb py_cc live_fs live_e /\
   length (split_nl (std_text (std_tb py_cc live_fs live_e))) = 7%nat.
 Proof. vm_compute. repeat split; reflexivity. Qed.
 
